@@ -169,6 +169,13 @@ class Index:
         from . import canon
         self.renamed = canon.apply(self, canon.discover(self))
         self.renamed.update({k: "relocated helper" for k in canon.relocate_helpers(self)})
+        # new private procedures are opened at their call sites (core/canon.py: inline_procedures)
+        self.propagated = canon.propagate_constants(self)
+        self.inlined = canon.inline_procedures(self)
+        self.opened = canon.open_expression_helpers(self)
+        self.scalarised = canon.scalarise_last_lists(self)
+        self.sums = canon.desugar_sums(self)
+        self.extends = canon.desugar_extends(self)
 
     # -- enumeration -----------------------------------------------------------------
     def all_classes(self):
@@ -505,6 +512,31 @@ def _eval_members(self, init, flow_of, literals):
         if isinstance(node, ast.BinOp) and isinstance(node.op, ast.BitOr):
             a, b = dict_of(node.left, conds), dict_of(node.right, conds)
             return None if a is None or b is None else a + b
+        if isinstance(node, (ast.DictComp, ast.GeneratorExp, ast.ListComp)) and len(node.generators) == 1 and not node.generators[0].is_async:
+            # a comprehension over a literal table of rows: one conditional entry per row
+            g = node.generators[0]
+            lit = g.iter if isinstance(g.iter, (ast.Tuple, ast.List)) else literals.get(g.iter.id) if isinstance(g.iter, ast.Name) else None
+            tg = g.target
+            if lit is None or not (isinstance(tg, ast.Tuple) and all(isinstance(t, ast.Name) for t in tg.elts)) or \
+                    not all(isinstance(e, (ast.Tuple, ast.List)) and len(e.elts) == len(tg.elts) for e in lit.elts):
+                return None
+            if isinstance(node, ast.DictComp):
+                kv = (node.key, node.value)
+            elif isinstance(node.elt, ast.Tuple) and len(node.elt.elts) == 2:
+                kv = tuple(node.elt.elts)
+            else:
+                return None
+            out = []
+            for e in lit.elts:
+                m = {t.id: v for t, v in zip(tg.elts, e.elts)}
+                k_, v_ = (ast.fix_missing_locations(_Sub(m).visit(copy.deepcopy(x))) for x in kv)
+                rc = conds + tuple((ir.from_ast(ast.fix_missing_locations(_Sub(m).visit(copy.deepcopy(t))), {}), True) for t in g.ifs)
+                key = k_.value if isinstance(k_, ast.Constant) and isinstance(k_.value, str) else enum_value(k_)
+                fl = flow_of(v_)
+                if key is None or fl is None:
+                    return None
+                out.append((key, fl, rc, getattr(e, "lineno", node.lineno)))
+            return out
         if isinstance(node, ast.Subscript):
             tab = node.value if isinstance(node.value, ast.Dict) else tables.get(node.value.id) if isinstance(node.value, ast.Name) else None
             if tab is None or any(k is None for k in tab.keys):
@@ -519,10 +551,19 @@ def _eval_members(self, init, flow_of, literals):
             return out
         return None
 
+    def enum_value(k):
+        """Feature.ERR.value -> 'err'"""
+        if isinstance(k, ast.Attribute) and k.attr == "value" and isinstance(k.value, ast.Attribute):
+            en = self.enums.get(k.value.value.attr if isinstance(k.value.value, ast.Attribute) else getattr(k.value.value, "id", None))
+            if en is not None and isinstance(en.get(k.value.attr), str):
+                return en[k.value.attr]
+        return None
+
     def mentions_tracked(node):
         return any(isinstance(n, ast.Name) and (n.id in env or n.id in tables) for n in ast.walk(node))
 
     def run(stmts, conds):
+        nonlocal literals
         for st in stmts:
             if not state["ok"]:
                 return
@@ -549,6 +590,10 @@ def _eval_members(self, init, flow_of, literals):
                                                               for x in v.values) and all(k is not None for k in v.keys) and \
                         not all(isinstance(k, ast.Constant) and isinstance(k.value, str) and flow_of(x) for k, x in zip(v.keys, v.values)):
                     tables[name] = v
+                    continue
+                if isinstance(v, (ast.Tuple, ast.List)) and v.elts and all(isinstance(e, (ast.Tuple, ast.List)) for e in v.elts) and not conds:
+                    literals = dict(literals)
+                    literals[name] = v                  # a local table of rows
                     continue
                 ents = dict_of(v, ())
                 if ents is not None:
